@@ -49,7 +49,6 @@ def shared_digest():
             h.update(d.tobytes())
         else:
             h.update(repr(d).encode())
-    h.update(repr(sorted(np.geterr().items())).encode())
     h.update(repr(logging.getLogger("L-BFGS-B").level).encode())
     h.update(repr(sorted(k for k in vars(lbfgsb) if not k.startswith("_"))).encode())
     return h.hexdigest()
